@@ -1742,3 +1742,165 @@ Proof.
       pose proof (stale_false_evalp po pan PO _ _ _ (proj2 HP) Es) as He.
       rewrite eval_p_S, graph_nth, En in He. simpl in He. unfold outT in He. rewrite En in He. exact He.
 Qed.
+
+(* ---- edits preserve the extended invariant ---- *)
+Lemma edit_InvP po pan st o st' r : is_read o = false -> step_store po st o = Some (st', r) ->
+  InvP pan st -> InvP pan st'.
+Proof.
+  intros Hr H I. destruct o as [n v | n input src | n input | n]; try discriminate; cbn [step_store] in H.
+  - destruct (nth_error st n) as [[ver w sets|]|] eqn:En; try discriminate. injection H as <- <-.
+    intros k snk Ek. destruct (Nat.eq_dec n k) as [<- | Hne].
+    + rewrite nth_error_set_nth_eq in Ek by (eapply nth_error_some_lt; eauto). discriminate.
+    + rewrite nth_error_set_nth_neq in Ek; auto. eapply node_invP_mono; [|apply (I _ _ Ek)].
+      intros m. destruct (Nat.eq_dec n m) as [<- | Hnm].
+      * unfold verT, ver_of. rewrite nth_error_set_nth_eq by (eapply nth_error_some_lt; eauto).
+        rewrite En. split; [lia|]. intros; lia.
+      * rewrite verT_set_nth_neq, outT_set_nth_neq; auto.
+  - destruct (src <? length st); [|discriminate]. inv_bind H.
+    destruct (acyclic_b (graph_of a)); [|discriminate]. injection H as <- <-.
+    destruct (rewire_inv _ _ _ _ _ E) as (sn & ps & En & Hps & ->).
+    intros k snk Ek. destruct (Nat.eq_dec n k) as [<- | Hne].
+    + rewrite nth_error_set_nth_eq in Ek by (eapply nth_error_some_lt; eauto). injection Ek as <-.
+      intros dv _ Hd. discriminate.
+    + rewrite nth_error_set_nth_neq in Ek; auto. eapply node_invP_mono; [|apply (I _ _ Ek)].
+      intros m. destruct (Nat.eq_dec n m) as [<- | Hnm].
+      * unfold verT, ver_of, outT. rewrite nth_error_set_nth_eq by (eapply nth_error_some_lt; eauto).
+        rewrite En. simpl. auto.
+      * rewrite verT_set_nth_neq, outT_set_nth_neq; auto.
+  - inv_bind H. injection H as <- <-.
+    destruct (rewire_inv _ _ _ _ _ E) as (sn & ps & En & Hps & ->).
+    intros k snk Ek. destruct (Nat.eq_dec n k) as [<- | Hne].
+    + rewrite nth_error_set_nth_eq in Ek by (eapply nth_error_some_lt; eauto). injection Ek as <-.
+      intros dv _ Hd. discriminate.
+    + rewrite nth_error_set_nth_neq in Ek; auto. eapply node_invP_mono; [|apply (I _ _ Ek)].
+      intros m. destruct (Nat.eq_dec n m) as [<- | Hnm].
+      * unfold verT, ver_of, outT. rewrite nth_error_set_nth_eq by (eapply nth_error_some_lt; eauto).
+        rewrite En. simpl. auto.
+      * rewrite verT_set_nth_neq, outT_set_nth_neq; auto.
+Qed.
+
+(* ---- acyclicity (as the executable test) is an invariant ---- *)
+Lemma map_opt_total {A B} (f : A -> option B) l : (forall x, In x l -> exists y, f x = Some y) -> exists ys, map_opt f l = Some ys.
+Proof.
+  induction l; simpl; intros H; [eauto|]. destruct (H a (or_introl eq_refl)) as [y ->].
+  destruct IHl as [ys ->]; [intros; apply H; auto|]. simpl. eauto.
+Qed.
+
+Lemma depth_some_lt f g n h : depth f g n = Some h -> n < length g.
+Proof.
+  destruct f; [discriminate|]. rewrite depth_S. destruct (nth_error g n) eqn:E; [|discriminate].
+  intros _. eapply nth_error_some_lt; eauto.
+Qed.
+
+Definition gsub (g' g : graph) : Prop :=
+  length g' = length g /\
+  forall n ins' proc', nth_error g' n = Some (GStruct ins' proc') ->
+    exists ins proc, nth_error g n = Some (GStruct ins proc) /\ incl (concat ins') (concat ins).
+
+Lemma depth_gsub g' g : gsub g' g -> forall f n h, depth f g n = Some h -> exists h', depth f g' n = Some h'.
+Proof.
+  intros [L S]. induction f; intros n h H; [discriminate|].
+  pose proof (depth_some_lt _ _ _ _ H) as Hlt. rewrite depth_S in H. rewrite depth_S.
+  destruct (nth_error g' n) as [[v|ins' proc']|] eqn:E'.
+  - eauto.
+  - destruct (S _ _ _ E') as (ins & proc & E & Hi). rewrite E in H. inv_bind H.
+    destruct (map_opt_total (depth f g') (concat ins')) as [hs' ->]; [|simpl; eauto].
+    intros d Hd. destruct (map_opt_some_in _ _ _ E0 d (Hi d Hd)) as (hd & Ed & _). eapply IHf; eauto.
+  - apply nth_error_None in E'. lia.
+Qed.
+
+Lemma acyclic_gsub g' g : gsub g' g -> acyclic_b g = true -> acyclic_b g' = true.
+Proof.
+  intros S H. unfold acyclic_b in *. rewrite forallb_forall in *. intros n Hn.
+  rewrite in_seq in Hn. destruct S as [L S']. specialize (H n). rewrite in_seq in H.
+  assert (Hn' : 0 <= n < 0 + length g) by (rewrite <- L; exact Hn). specialize (H Hn').
+  destruct (depth (Datatypes.S (length g)) g n) as [h|] eqn:E; [|discriminate].
+  destruct (depth_gsub g' g (conj L S') _ _ _ E) as [h' E']. rewrite L, E'. reflexivity.
+Qed.
+
+Lemma graph_of_length st : length (graph_of st) = length st.
+Proof. apply map_length. Qed.
+
+Lemma edit_acyclic po st o st' r : is_read o = false -> step_store po st o = Some (st', r) ->
+  acyclic_b (graph_of st) = true -> acyclic_b (graph_of st') = true.
+Proof.
+  intros Hr H A. destruct o as [n v | n input src | n input | n]; try discriminate; cbn [step_store] in H.
+  - destruct (nth_error st n) as [[ver w sets|]|] eqn:En; try discriminate. injection H as <- <-.
+    eapply acyclic_gsub; [|exact A]. split; [rewrite !graph_of_length; apply set_nth_length|].
+    intros m ins' proc' Em. rewrite graph_nth in Em. destruct (Nat.eq_dec n m) as [<- | Hnm].
+    + rewrite nth_error_set_nth_eq in Em by (eapply nth_error_some_lt; eauto). discriminate.
+    + rewrite nth_error_set_nth_neq in Em; auto. exists ins', proc'. rewrite graph_nth. split; auto. apply incl_refl.
+  - destruct (src <? length st); [|discriminate]. inv_bind H.
+    destruct (acyclic_b (graph_of a)) eqn:Ea; [|discriminate]. injection H as <- <-. exact Ea.
+  - inv_bind H. injection H as <- <-.
+    destruct (rewire_inv _ _ _ _ _ E) as (sn & ps & En & Hps & ->).
+    eapply acyclic_gsub; [|exact A]. split; [rewrite !graph_of_length; apply set_nth_length|].
+    intros m ins' proc' Em. rewrite graph_nth in Em. destruct (Nat.eq_dec n m) as [<- | Hnm].
+    + rewrite nth_error_set_nth_eq in Em by (eapply nth_error_some_lt; eauto).
+      simpl in Em. injection Em as <- <-. exists (ids_of sn), (sn_proc sn).
+      rewrite graph_nth, En. split; auto. apply set_input_none_incl in Hps. exact Hps.
+    + rewrite nth_error_set_nth_neq in Em; auto. exists ins', proc'. rewrite graph_nth. split; auto. apply incl_refl.
+Qed.
+
+Lemma init_acyclic ds : acyclic_b (graph_of (nodes (init ds))) = true.
+Proof.
+  unfold acyclic_b. rewrite forallb_forall. intros n Hn. rewrite in_seq in Hn.
+  rewrite depth_S, graph_nth. simpl. rewrite nth_error_map.
+  destruct (nth_error ds n) as [[v|fs proc]|] eqn:E; simpl; auto.
+  - unfold ids_of. simpl. rewrite init_ports_empty. reflexivity.
+  - apply nth_error_None in E. rewrite graph_of_length in Hn. simpl in Hn. rewrite map_length in Hn. lia.
+Qed.
+
+(* ---- everything a history with panicking reads preserves ---- *)
+Definition Good (pan : pantab) (st : store) : Prop :=
+  WF st /\ VC st /\ InvP pan st /\ acyclic_b (graph_of st) = true.
+
+Lemma init_Good pan ds : Good pan (nodes (init ds)).
+Proof.
+  split; [apply init_WF|]. split; [apply init_VC|]. split; [|apply init_acyclic].
+  intros n sn En. simpl in En. rewrite nth_error_map in En.
+  destruct (nth_error ds n) as [[v|fs proc]|]; try discriminate. injection En as <-.
+  intros dv Hdv. discriminate.
+Qed.
+
+Definition stable_oracle (orc : oracle) : Prop := forall c, stable (orc c).
+
+Lemma pstep_Good pan orc s o s' : stable_oracle orc -> Good pan (nodes s) -> pstep pan orc s o = Some s' -> Good pan (nodes s').
+Proof.
+  intros SO (W & V & IP & A) H.
+  assert (PO : oracle_ok orc) by (intros c; apply SO).
+  destruct (pstep_WF pan orc s o s' PO (conj W V) H) as [W' V']. split; auto. split; auto.
+  destruct (is_read o) eqn:Er.
+  - destruct o; try discriminate. cbn [pstep] in H. apply bind_some in H as [[st' r] [E H]]. injection H as <-. simpl.
+    destruct W as [I [rk Rk]].
+    destruct (pvalue_full _ pan rk (SO _) _ _ _ _ _ (conj (conj I Rk) IP) E) as (IP' & _ & _).
+    destruct (pvalue_sim _ pan rk (PO _) _ _ _ _ _ (conj I Rk) E) as [(_ & G & _) _].
+    split; auto. rewrite G. exact A.
+  - assert (E : exists r, step_store (orc (clock s)) (nodes s) o = Some (nodes s', r)).
+    { destruct o; try discriminate; cbn [pstep] in H; apply bind_some in H as [[s1 r] [E H]]; injection H as <-;
+        apply step_inv in E; eauto. }
+    destruct E as [r E]. split; [eapply edit_InvP; eauto | eapply edit_acyclic; eauto].
+Qed.
+
+Lemma prun_Good pan orc : stable_oracle orc -> forall h s s', Good pan (nodes s) -> prun pan orc s h = Some s' -> Good pan (nodes s').
+Proof.
+  intros SO. induction h as [|o r IH]; simpl; intros s s' G H.
+  - injection H as <-. auto.
+  - apply bind_some in H as [s1 [E H]]. eapply IH; [|exact H]. eapply pstep_Good; eauto.
+Qed.
+
+(* THREE-OUTCOME FRESHNESS, both directions: after any history (panicking reads included) the outcome of a
+   read — a value or a panic — is the outcome of the from-scratch evaluation of the current wiring and
+   parameter values.  (eval_p is a function, so: the read panics iff the from-scratch evaluation panics, and
+   otherwise returns its value.) *)
+Theorem read_outcome_fresh pan orc ds h s n st' r :
+  stable_oracle orc -> prun pan orc (init ds) h = Some s ->
+  pvalue (orc (clock s)) pan (fuel_of (nodes s)) (nodes s) n = Some (st', r) ->
+  eval_p pan (fuel_of (nodes s)) (graph_of (nodes s)) n = Some r /\ graph_of st' = graph_of (nodes s) /\ VC st'.
+Proof.
+  intros SO R H.
+  destruct (prun_Good pan orc SO _ _ _ (init_Good pan ds) R) as ([I [rk Rk]] & V & IP & A).
+  destruct (pvalue_full _ pan rk (SO _) _ _ _ _ _ (conj (conj I Rk) IP) H) as (_ & E & _).
+  destruct (pvalue_sim _ pan rk (proj1 (SO _)) _ _ _ _ _ (conj I Rk) H) as [(_ & G & L) _].
+  split; auto. split; auto. eapply VC_le; eauto.
+Qed.
